@@ -94,13 +94,14 @@ KEY_KINDS = ("str", "int", "tuple", "mixed")
 
 
 def mk_key(kind, i):
+    """node index -> key; index 0 maps to a *falsy* key (`''`, `0`, `()`): truth value of a key must not matter"""
     if kind == "str":
-        return f"k{i}"
+        return "" if i == 0 else f"k{i}"
     if kind == "int":
         return i
     if kind == "tuple":
-        return ("x", i)
-    return [f"k{i}", i + 100, ("x", i), (f"y{i}", 0, 1)][i % 4]
+        return () if i == 0 else ("x", i)
+    return [0, "", ()][i] if i < 3 else [f"k{i}", i + 100, ("x", i), (f"y{i}", 0, 1)][i % 4]
 
 
 def enc_graph(adj):
